@@ -39,6 +39,10 @@ def rule_bound(ctx):
     B.check_bound(ctx, "C11.BOUND")
 
 
+def rule_recover(ctx):
+    B.check_recover(ctx, "C11.RECOVER")
+
+
 def rule_nogrow(ctx):
     B.check_discard(ctx, "C11.NOGROW")
     B.check_aux(ctx, "C11.AUX")
@@ -49,5 +53,6 @@ RULES = [
     ("C11.GUARD", rule_guard, "the consumer only receives results of IndiMessage.from_string"),
     ("C11.CONTAIN", rule_contain, "parser exceptions never escape Buffer.process"),
     ("C11.BOUND", rule_bound, "threshold enabled: every loop exit leaves <= threshold characters"),
+    ("C11.RECOVER", rule_recover, "a complete element rejected by the message parser is consumed, not retained at the head of the buffer"),
     ("C11.NOGROW", rule_nogrow, "cleanup functions only truncate: earliest tag / last '<' / empty, one character under the threshold guard"),
 ]
